@@ -266,6 +266,31 @@ def gen_directed(g, F, rng):
         g.add('%s.random %s' % (n, stream.hex()), 'random', F, stream)
 
 
+def gen_coincidences(g, F, rng, budget=None):
+    """products whose word-serial Montgomery reduction hits an exact carry coincidence (lib/redcsolve.py): P_i = T[i+n]+carry_i in
+    {2^w-2, 2^w-1, 2^w, 2^w+1} with and without a pending meta-carry, for every round and for 64- and 32-bit words"""
+    import redcsolve
+    jobs = []
+    for w in (64, 32):
+        n = F.bits // w
+        for row in range(n - 1):
+            for t in redcsolve.coincidence_targets(w):
+                for m in (0, 1):
+                    if row == 0 and m:
+                        continue        # no round precedes round 0
+                    jobs.append((w, row, t, m))
+    if budget is not None:
+        jobs = rng.sample(jobs, min(budget, len(jobs)))
+    for w, row, t, m in jobs:
+        ab = redcsolve.solve_product(F.p, F.bits, w, row, t, m, rng)
+        if ab is None:
+            continue
+        a, b = ab
+        label = 'w%d/round%d/P=2^w%+d/meta%d' % (w, row, t - (1 << w), m)
+        for x, y in ((a, b), (b, a)):
+            g.add('%s.mul %s %s' % (F.name, F.tok(x), F.tok(y)), 'mul', F, x, y, label)
+
+
 def sqrt_mod(a, p, rng):
     if p % 4 == 3:
         s = pow(a, (p + 1) // 4, p)
@@ -557,7 +582,13 @@ def worker(sh):
         drng = random.Random(20260927)   # directed stratum is seed-independent
         gen_directed(g, FQ, drng)
         gen_directed(g, FR, drng)
+        gen_coincidences(g, FQ, drng)
+        gen_coincidences(g, FR, drng)
         sh.count('directed_events', len(g.lines))
+    else:
+        # further instances of the carry coincidences, seed-dependent
+        gen_coincidences(g, FQ, rng, budget=sh.pick(4, 40))
+        gen_coincidences(g, FR, rng, budget=sh.pick(4, 40))
     n = sh.pick(20000, 250000)
     gen_random(g, FQ, rng, n)
     gen_random(g, FR, rng, n)
@@ -568,6 +599,8 @@ def worker(sh):
             continue
         try:
             cls = judge(sh, line, meta, out)
+            if len(meta) > 4 and meta[0] == 'mul':
+                sh.event('%s.mul.carry-coincidence' % meta[1].name, meta[4])
         except (IndexError, ValueError) as e:
             sh.violation('malformed:%s' % line.split(' ')[0], 'unparsable answer %r for %s (%s)' % (out, line[:200], e), {'line': line})
             continue
@@ -579,6 +612,8 @@ REQUIRED = [
     'Fq.add|cmp=/top64=/top32=/chain', 'Fq.add|cmp</top64=', 'Fq.add|cmp>/top64=', 'Fr.add|cmp=/top64=', 'Fr.add|cmp>/top64=', 'Fr.add|cmp</top64=',
     'Fq.mul|vcmp</top64=', 'Fq.mul|vcmp>/top64=', 'Fr.mul|vcmp>/top64=', 'Fr.mul|vcmp</top64=',
     'Fq.sub|borrow/bchain5', 'Fr.sub|borrow/bchain3', 'Fr.sqrt|ts-order31', 'Fr.sqrt|ts-order0', 'Fq.random|rejections8', 'Fr.random|rejections8',
+    'Fq.mul.carry-coincidence|w64/round0/P=2^w+0/meta0', 'Fq.mul.carry-coincidence|w64/round4/P=2^w+0/meta1', 'Fq.mul.carry-coincidence|w64/round2/P=2^w-1/meta1',
+    'Fr.mul.carry-coincidence|w64/round1/P=2^w-1/meta1', 'Fr.mul.carry-coincidence|w64/round2/P=2^w+0/meta1', 'Fr.mul.carry-coincidence|w32/round6/P=2^w+0/meta1', 'Fq.mul.carry-coincidence|w32/round10/P=2^w-1/meta1',
     'Fq.rd|masked>=p', 'Fq.hashred|masked>=p', 'c.zp_from_hash|masked>=p', 'Fq.inv|zero', 'Fr.inv|zero', 'Fq.neg|zero',
 ]
 
